@@ -39,6 +39,16 @@ type SI struct {
 	I interface{}
 }
 
+// E is a pointer-receiver error, EV a value-receiver one.
+type E struct{ Code int }
+
+func (e *E) Error() string { return "E" }
+
+// EV is a value-receiver error.
+type EV struct{ Code int }
+
+func (e EV) Error() string { return "EV" }
+
 // F1 and F2 are the two distinct top-level funcs of the func kind.
 //
 //go:noinline
@@ -121,7 +131,9 @@ func kinds() []*kind {
 	add("*struct", new(*S), deepEq, true, val{"nil", (*S)(nil)}, val{"&S{0,}", &S{}}, val{"&S{1,x}", &S{1, "x"}}, val{"&S{1,x}#2", &S{1, "x"}}, val{"&S{2,x}", &S{2, "x"}}, val{"&S{1,y}", &S{1, "y"}})
 	add("interface{}", new(interface{}), ifaceEq, true, val{"nil", nil}, val{"int(0)", 0}, val{"int(1)", 1}, val{"int(-1)", -1}, val{"int64(1)", int64(1)}, val{"uint8(1)", uint8(1)}, val{"uint64(max)", maxU64},
 		val{"float64(1)", float64(1)}, val{"float64(0.5)", 0.5}, val{"float32(1)", float32(1)}, val{`"1"`, "1"}, val{`""`, ""}, val{`"a"`, "a"}, val{"true", true}, val{"false", false},
-		val{"S{1,x}", S{1, "x"}}, val{"S{2,x}", S{2, "x"}})
+		val{"S{1,x}", S{1, "x"}}, val{"S{2,x}", S{2, "x"}},
+		val{"&S{1,x}", &S{1, "x"}}, val{"&S{1,x}#2", &S{1, "x"}}, val{"&S{2,x}", &S{2, "x"}}, val{"(*S)(nil)", (*S)(nil)}, val{"&int(1)", intp(1)}, val{"(*int)(nil)", (*int)(nil)})
+	add("error", new(error), ifaceEq, true, val{"nil", nil}, val{"&E{1}", &E{1}}, val{"&E{1}#2", &E{1}}, val{"&E{2}", &E{2}}, val{"(*E)(nil)", (*E)(nil)}, val{"EV{1}", EV{1}}, val{"EV{2}", EV{2}})
 	add("func", new(func(int) int), funcEq, true, val{"nil", (func(int) int)(nil)}, val{"F1", F1}, val{"F2", F2})
 	return ks
 }
